@@ -160,12 +160,9 @@ def split_executions(tracefile):
 
 
 def projection(lines):
-    """what must not depend on the configuration: everything but the reads"""
-    out = []
-    for l in lines[1:]:
-        if l.startswith('{"e":"Read"'): continue
-        out.append(l)
-    return out
+    """an execution equal to one TLC has accepted is accepted: everything but the Reset line (which names the
+    scanner).  Reads are part of it - they carry the buffer geometry that Trace_Scanner!Geometry decides."""
+    return lines[1:]
 
 
 def validate(trace_path, cases_path, timeout=600):
